@@ -88,6 +88,14 @@ def call_builtin(it, name, args, kwargs):
             return v
         if is_bool_term(v):
             return bool_as_num(v)
+        if is_fp_term(v):
+            if ctx.branch(z3.fpIsNaN(v)):
+                raise PyRaise('ValueError')
+            if ctx.branch(z3.fpIsInf(v)):
+                raise PyRaise('OverflowError')
+            rv = z3.fpToReal(v)
+            fl = z3.ToInt(rv)
+            return FPInt(v, z3.If(rv >= 0, fl, z3.If(z3.ToReal(fl) == rv, fl, fl + 1)))
         if is_real_term(v):
             # truncation toward zero
             fl = z3.ToInt(v)
@@ -278,6 +286,13 @@ def call_builtin(it, name, args, kwargs):
     if name in ('log_', 'exp_', 'tanh_'):
         from .trans import apply_trans
         return apply_trans(it, name[:-1], args)
+    if name == 'is_integral':
+        v = args[0]
+        if is_fp_term(v):
+            return z3.And(z3.Not(z3.fpIsNaN(v)), z3.Not(z3.fpIsInf(v)), z3.fpRoundToIntegral(z3.RTZ(), v) == v)
+        if is_z3(v):
+            return z3.ToReal(z3.ToInt(to_real(v))) == to_real(v)
+        return float(v) == int(v)
     if name == 'le':
         return scalar_cmp('<=', args[0], args[1], fp)
     if name == 'approx_h':
